@@ -88,7 +88,7 @@ def step (line : String) : String :=
     let L := L.toNat!; let P := P.toNat!
     let (z0, z1, _) := eulerPhases (bf r0) (bf r1) (bf r2) (bf r3)
     let st := runHF L P z1.re z1.im (bf dflt)
-    cxs (evaluateHorner (α := Float) st (parseCxArray f) z0 ⟨bf pre, bf pim⟩ s.toInt! ellMaxM.toNat! ⟨bf ire, bf iim⟩)
+    cxs (evaluateHornerK (α := Float) st (parseCxArray f) z0 ⟨bf pre, bf pim⟩ s.toInt! ellMaxM.toNat! ⟨bf ire, bf iim⟩)
   | "rotH" :: L :: s :: ellMaxM :: r0 :: r1 :: r2 :: r3 :: dflt :: rest =>
     -- rest = (2*ellMaxM+1) complex powers zγ^m for m = -ellMaxM..ellMaxM, then the mode weights
     let L := L.toNat!; let eM := ellMaxM.toNat!
